@@ -10,6 +10,7 @@ bind:  spec -> impl: each behaviour is replayed on four kinds of real memo cells
 import json
 
 import common
+from render import obj_chain
 import corpus
 from common import run_cmds, run_tlc_many, stable_id
 
@@ -257,6 +258,44 @@ def run(chk):
             ev_lines.extend(event_lines(r["events"]))
             ev_meta.append((start, len(ev_lines), cmd))
     chk.sample({"unneeded_program": UNNEEDED[2][0], "bombs": BOMBS})
+
+    # ---- object chains of Objects.tla: every definition a read does not need holds a bomb
+    import copy
+    import random as _random
+    orng = _random.Random(chk.seed)
+    ofams = ["plus", "omit", "refs"]
+    ors = run_tlc_many([dict(module="Objects", cfg=f"MC_Objects_{f}.cfg", workers=5, timeout=3000, xmx="8g") for f in ofams], parallel=3)
+    ocmds, ometa = [], []
+    for f, r in zip(ofams, ors):
+        chk.add_tlc(r, f"Objects[{f}]: Used = the definitions a field read evaluates")
+        rep = [c for c in r.replay if not c["asserts"]]
+        if not thorough and len(rep) > 2500:
+            orng.shuffle(rep)
+            rep = rep[:2500]
+        for c in rep:
+            for name in ("a", "b"):
+                g = c["obs"][name]["get"]
+                if g["k"] != "num":
+                    continue
+                used = {(u[0], u[1]) for u in c["used"][name]}
+                ch = copy.deepcopy(c["chain"])
+                planted = 0
+                for j, layer in enumerate(ch, start=1):
+                    if layer["omit"]:
+                        continue
+                    for mn, m in layer["ms"].items():
+                        if m["p"] and (j, mn) not in used:
+                            m["b"] = {"k": "bomb", "g": "", "n": 0}
+                            planted += 1
+                if planted:
+                    ocmds.append({"cmd": "eval", "id": len(ocmds), "src": f"{obj_chain(ch, 0)}.{name}"})
+                    ometa.append((c, name, g["n"]))
+    for cmd, r, (c, name, n) in zip(ocmds, run_cmds(ocmds), ometa):
+        chk.count(("objbomb", cmd["src"]))
+        if not (r["k"] == "val" and json.loads(r["out"]) == n):
+            chk.disagree(f"c03:object-unneeded:{c['fam']}:{cmd['src']}", {"src": cmd["src"], "chain": c["chain"], "field": name}, n, r,
+                         "reading a field evaluated a definition the object model does not need (overridden, masked by a removed key, or another field)")
+    chk.extra["object_reads_with_bombs"] = len(ocmds)
 
     # ---- shared positions: evaluated at most once
     scmds = [{"cmd": "eval", "id": i, "src": prog.replace("ONCE", "std.trace('ONCE', 1)"), "want_events": True}
